@@ -741,6 +741,9 @@ func (n *recNode) tree() []any {
 var (
 	recRoot  *recNode
 	recStack []*recNode
+	recSnap  func() string // renders the user's option structs (set per shape call)
+	recWant  string        // their rendering before the call
+	recSeen  string        // first different rendering seen while a NESTED registry call was entered
 )
 
 // wrapRec records the tree of nested registry calls; only used by the sequential "shape" scenarios (the
@@ -751,6 +754,13 @@ func wrapRec(class string, f minify.MinifierFunc) minify.MinifierFunc {
 		if len(recStack) == 0 {
 			recRoot = n
 		} else {
+			// inside a nested call: the option structs must look exactly as before the outer call (a change that
+			// is undone before the outer call returns is visible only here)
+			if recSnap != nil && recSeen == "" {
+				if now := recSnap(); now != recWant {
+					recSeen = now
+				}
+			}
 			p := recStack[len(recStack)-1]
 			p.kids = append(p.kids, n)
 		}
@@ -795,6 +805,7 @@ func runShape(sc *Scenario) {
 		m2.AddFuncRegexp(reFail, wrapRec("failfn", failFn))
 		m2.AddFuncRegexp(reUpper, wrapRec("upper", upperFn))
 		recRoot, recStack = nil, nil
+		recSnap, recWant, recSeen = r.snapshot, r.snapshot(), ""
 		entry := "Bytes"
 		if c.E == "Match" {
 			entry = "Match" // the recorder sits in the function Match returns
@@ -808,7 +819,12 @@ func runShape(sc *Scenario) {
 		if recRoot != nil {
 			tree = recRoot.tree()
 		}
-		emit(Line{Ev: "shape", Sc: sc.ID, K: i + 1, Sh: c.Sh, Key: keyOf(sc, c), H: res.h, Err: res.err, Tree: tree, Note: res.o1})
+		during := recSeen
+		if during == "" {
+			during = r.snapshot() // nothing different seen inside: the rendering after the call
+		}
+		emit(Line{Ev: "shape", Sc: sc.ID, K: i + 1, Sh: c.Sh, Key: keyOf(sc, c), H: res.h, Err: res.err, Tree: tree, O1: recWant, O2: during, Note: res.o1})
+		recSnap = nil
 	}
 	endLine(sc, "", "", "")
 }
